@@ -12,7 +12,7 @@ import Ecpint.Props.C10
 import Ecpint.Props.C11
 import Ecpint.Props.C12
 import Ecpint.Props.C13
-import Ecpint.Props.C14
+import Ecpint.Props.C14All
 import Ecpint.Props.C15
 import Ecpint.Props.C16
 import Ecpint.Props.C17
